@@ -49,6 +49,10 @@ def _case(draw):
         A["ending"] = draw(st.sampled_from(["solve", "solve", "abandon", "raise", "unbounded"]))
         A["opts"] = draw(gen.solve_options(solvers=("CLARABEL", "SCS"), allow_drh=True))
         A["opts"]["verbose"] = draw(st.sampled_from([0, 1, 2]))
+        if draw(st.integers(0, 2)) == 0:
+            # solver-specific keyword arguments given to an EARLIER solve (they must not reach B's solve)
+            A["opts"]["extra"] = ({"max_iter": draw(st.sampled_from([3, 8, 50]))} if A["opts"]["solver"] == "CLARABEL"
+                                  else {"max_iters": draw(st.sampled_from([20, 200])), "eps": draw(st.sampled_from([1e-2, 1e-6]))})
         A["null"] = draw(st.booleans())
         hist.append(A)
     return {"B": B, "optsB": optsB, "history": hist, "other_verbose": draw(st.sampled_from([0, 1, 2]))}
@@ -142,14 +146,25 @@ def dump_B(B, opts, history, verbose_override=None):
                        len(Expression.list_of_leaf_expressions), len(Function.list_of_functions),
                        len(BlockPartition.list_of_partitions)]
     exc = None
+    # what the numerical solver is finally called with is part of the solver input
+    import cvxpy
+    solver_calls = []
+    orig_solve = cvxpy.Problem.solve
+
+    def spy(self_, *a, **kw):
+        solver_calls.append(["cvxpy.Problem.solve", [repr(x) for x in a], sorted((k_, repr(v_)) for k_, v_ in kw.items() if k_ != "verbose")])
+        return orig_solve(self_, *a, **kw)
+    cvxpy.Problem.solve = spy
     with prog.quiet():
         try:
             res = env.pep.solve(**prog.decode_solve_options(o))
         except Exception as e:  # noqa
             res = None
             exc = "%s" % type(e).__name__
+        finally:
+            cvxpy.Problem.solve = orig_solve
     w = env.pep.wrapper
-    events = []
+    events = [["solver-call", c_] for c_ in solver_calls]
     for ev in getattr(w, "events", []):
         if ev[0] == "c":
             c = ev[1]
